@@ -21,6 +21,9 @@ import z3
 __all__ = ['Explorer','SymInt','SymReal','SymBool','SymFP','SymFPR','SymBV','Inconclusive','Violation',
            'ConcreteSym','unwrap','is_sym','discover_prefixes','collect','to_smt2','And','Or','Not','Implies','ite']
 
+import os as _os
+_REPO = _os.environ.get('VERIF_REPO','/repo').rstrip('/') + '/'
+
 class Inconclusive(Exception):
     pass
 
@@ -842,7 +845,7 @@ class Explorer:
                     self.stats['paths'] += 1; self.stats['reached'] += 1
                     import traceback
                     tb = traceback.extract_tb(e.__traceback__)
-                    where = next((f"{f.filename}:{f.lineno}" for f in reversed(tb) if '/repo/' in f.filename), '')
+                    where = next((f"{f.filename}:{f.lineno}" for f in reversed(tb) if _REPO in f.filename), '')
                     try:
                         ok = self._check()
                     except Inconclusive:
@@ -991,6 +994,6 @@ def replay(harness, model, choices):
     except Exception as e:
         import traceback
         tb = traceback.extract_tb(e.__traceback__)
-        where = next((f"{f.filename}:{f.lineno}" for f in reversed(tb) if '/repo/' in f.filename), '')
+        where = next((f"{f.filename}:{f.lineno}" for f in reversed(tb) if _REPO in f.filename), '')
         return True, f"uncaught {type(e).__name__}: {e} @{where}"
     return False, "no violation on replay"
